@@ -1,8 +1,50 @@
 """C01 — binary round trip.  Rules: C01.tbl (tables), C01.rot (rotation ids), C01.alg (scalar codecs),
 C01.arm (encoder/decoder arm duality; sa.shape)."""
+import re
+
 from sa import core, tables
 from . import common
 from .common import TYPE_ENUM, VARIANT_TYPE, vname
+
+
+def try_from_table(c, prog, tf, discr):
+    """{wire id: Type variant} accepted by TryFrom<u8>: either a literal `match value { 0x01 => String, .. }`, or a
+    search of a constant array of Type values for the one whose discriminant (`ty as u8`) equals the byte"""
+    try:
+        m, dups, mnode = tables.simple_map(tf)
+        lits = {k[1]: vname(v[1]) for k, v in m.items() if k[0] == "lit" and v[0] == "v"}
+        if lits:
+            for d in dups:
+                c.violation("C01.tbl", f"try_from|dup|{d}", f"TryFrom<u8> for Type lists pattern {d} twice (second arm unreachable)", core.loc(mnode))
+            return lits
+    except core.AnchorMissing:
+        pass
+    # search form
+    val_lid = tf.params[0]["lid"] if tf.params else None
+    consts = []
+    for n in core.walk_fn(tf):
+        if n.get("k") == "Path" and n.get("def") in prog.fns and (prog.fns[n["def"]].dk or "").startswith("Const"):
+            body = core.strip(prog.fns[n["def"]].body) if prog.fns[n["def"]].body is not None else {}
+            if body.get("k") == "Array":
+                vs = [core.strip(a).get("def") for a in body["args"]]
+                if vs and all(v and v.startswith(TYPE_ENUM + "::") for v in vs):
+                    consts.append([vname(v) for v in vs])
+    cmp_ok = False
+    for n in core.walk_fn(tf):
+        if n.get("k") == "Binary" and n["op"] == "==":
+            sides = [core.strip(n["l"]), core.strip(n["r"])]
+            cast = [x for x in sides if x.get("k") == "Cast" and x.get("ty") == "u8" and core.strip(x["e"]).get("ty", "").endswith("types::Type")]
+            val = [x for x in sides if x.get("k") == "Path" and x.get("lid") == val_lid]
+            if cast and val:
+                cmp_ok = True
+    if len(consts) == 1 and cmp_ok:
+        out = {}
+        for v in consts[0]:
+            if discr.get(v) in out:
+                c.violation("C01.tbl", f"try_from|dup|{v}", f"the Type table searched by TryFrom<u8> lists two variants with wire id {discr.get(v)}", tf.sp)
+            out[discr.get(v)] = v
+        return out
+    raise core.AnchorMissing("TryFrom<u8> for Type is neither a literal match nor a search of a constant Type table by discriminant")
 
 
 def rule_tbl(c, prog):
@@ -12,10 +54,7 @@ def rule_tbl(c, prog):
     c.floor("C01.tbl", len(discr), 31, "Type variants")
     # (a) TryFrom<u8>
     tf = prog.fn(f"<{TYPE_ENUM} as core::convert::TryFrom<u8>>::try_from")
-    m, dups, mnode = tables.simple_map(tf)
-    for d in dups:
-        c.violation("C01.tbl", f"try_from|dup|{d}", f"TryFrom<u8> for Type lists pattern {d} twice (second arm unreachable)", core.loc(mnode))
-    lit2var = {k[1]: vname(v[1]) for k, v in m.items() if k[0] == "lit" and v[0] == "v"}
+    lit2var = try_from_table(c, prog, tf, discr)
     for name, dv in sorted(discr.items()):
         back = lit2var.get(dv)
         if back == name:
@@ -111,7 +150,8 @@ def rule_ref(c, prog):
         if fn.crate != "rbx_binary" or fn.body is None or "deserializer::state" not in fn.path:
             continue
         for x in core.walk_fn(fn):
-            if x.get("k") == "MethodCall" and x["m"] == "get" and core.place_root(x["recv"]) == ("self", ["instances_by_ref"]):
+            rty = (x.get("recv", {}).get("ty") or "") + (x.get("recv", {}).get("aty") or "") if x.get("k") == "MethodCall" else ""
+            if x.get("k") == "MethodCall" and x["m"] == "get" and (core.place_root(x["recv"]) == ("self", ["instances_by_ref"]) or re.search(r"HashMap<i32, rbx_binary::deserializer::state::Instance", rty)):
                 dn += 1
                 inst = f"{fn.path}|read|{core.fingerprint(x['args'][0], 3)}"
                 dflt = default_of(fn, x)
@@ -119,7 +159,7 @@ def rule_ref(c, prog):
                     c.ok(R, inst)
                 else:
                     c.violation(R, f"read|{core.fingerprint(x['args'][0], 3)}|default={dflt}", f"{fn.path}: a referent read from the file and missing from instances_by_ref falls back to `{dflt}` instead of Ref::none()", core.loc(x), instance=inst)
-    c.floor(R, dn, 2, "instances_by_ref reference lookups")
+    c.floor(R, dn, 1, "instances_by_ref reference lookups")
 
 
 def default_of(fn, get_node):
